@@ -144,7 +144,7 @@ def r2_entropy(chk: Check) -> None:
     # the case-id RNG is not the global one and does not feed anything but ids
     gen = P.module("generation/__init__.py")
     t = unparse(gen.tree, 100000)
-    chk.decide("RANDOM = random.Random()" in t, "C13.R2", "generation/__init__.py", "case ids use their own Random instance", "case ids draw from the global RNG (perturbs seeded generation)", "generation/__init__.py")
+    chk.expect("RANDOM = random.Random()" in t, "C13.R2", "generation/__init__.py", "case ids use their own Random instance", "case ids draw from the global RNG (perturbs seeded generation)", "generation/__init__.py")
     users = [f.qualname for f in P.all_functions() if any(dotted(x) == "RANDOM" or (isinstance(x, ast.Attribute) and dotted(x.value) == "RANDOM") for x in walk_body(f.node))]
     chk.decide(set(users) <= {"generation/__init__.py:generate_random_case_id"}, "C13.R2", "generation/__init__.py", "RANDOM used only by generate_random_case_id", f"the unseeded RNG is used by {users}", "generation/__init__.py")
 
@@ -231,7 +231,7 @@ def r4_seed_flow(chk: Check) -> None:
                         "PLUMBED: --seed / --generation-deterministic reach ExecutionConfig.seed / hypothesis settings")
     # the seed is reported so that a run can be repeated
     ih = P.func("cli/commands/run/executor.py:initialize_handlers")
-    chk.decide("seed=config.engine.execution.seed" in unparse(ih.node, 100000), "C13.R4", ih, "the chosen seed is handed to the output handler", "the seed used is not reported", ih.loc())
+    chk.expect("seed=config.engine.execution.seed" in unparse(ih.node, 100000), "C13.R4", ih, "the chosen seed is handed to the output handler", "the seed used is not reported", ih.loc())
 
 
 def rules(tier: str) -> list:  # type: ignore[type-arg]
